@@ -190,4 +190,4 @@ for cfg in CONFIGS:
 # offset, concatenation shifts them - what a lazy table writes and parses after such steps is what the eager table holds
 from contracts import clone_for as _clone      # noqa: E402
 from contracts import c04 as _c04               # noqa: E402
-CONTRACTS += [_clone(_c04.make_contiguous, "C05"), _clone(_c04.getitem, "C05"), _clone(_c04.cat2, "C05")]
+CONTRACTS += [_clone(_c04.make_contiguous, "C05"), _clone(_c04.getitem, "C05"), _clone(_c04.cat2, "C05"), _clone(_c04.cat2_mixed[0], "C05")]
